@@ -252,6 +252,7 @@ func runC03(c *Ctx) {
 	}
 	c03Modes(c, bt)
 	runC03Text(c, bt)
+	runC03Many(c, bt)
 }
 
 // c03ClosingMonitor: theorem C03_command_flow_cell with --close: in a cumulative report every column of an
